@@ -267,7 +267,9 @@ class Ctx:
         ev = {"property_id": self.id, "tier": self.tier, "seed": self.seed, "level": level,
               "coverage": cov, "assumptions": self.assumptions, "wall_s": round(time.time() - self.t0, 2),
               "violations": len(self.violations)}
-        if not self.replay:  # a replay run re-executes one stored case; it is not a coverage run
+        # a replay run re-executes one stored case, and a trial against a scratch tree (VERIF_REPO) is not a run on
+        # /repo: neither is a coverage run, so neither rewrites the evidence file
+        if not self.replay and os.path.realpath(REPO) == "/repo":
             os.makedirs(os.path.join(ROOT, "evidence"), exist_ok=True)
             with open(os.path.join(ROOT, "evidence", self.id + ".json"), "w") as f:
                 json.dump(ev, f, indent=1)
